@@ -151,6 +151,11 @@ def run_property(P, tier, seed, replay=None):
         print("VIOLATION property=%s replay=%s no-failing-input-found" % (pid, rp))
         violations += 1
 
+    # ---- 8b. property-specific extra stage (lock traces, schedule search, inventories)
+    post_extra = {}
+    if hasattr(P, "post"):
+        v, post_extra = P.post(tier, seed)
+        violations += v
     # ---- 9. evidence
     distinct = set()
     hist = {}
@@ -167,6 +172,7 @@ def run_property(P, tier, seed, replay=None):
              "coq_crosschecked_cases": len(sample)}
     if hasattr(P, "extra_evidence"):
         extra.update(P.extra_evidence(tier))
+    extra.update(post_extra)
     _evidence(P, tier, seed, coq, t0, len(cases), len(distinct), samples, extra, violations, notes)
     return 1 if violations else 0
 
